@@ -73,7 +73,8 @@ Clauses ==
    X02_RoundTripNoGain |-> X02_RoundTripNoGain(pre, ev, st, ghPre),
    X02_BlockedUntouched |-> X02_BlockedUntouched(pre, ev, st),
    X02_ModuleOnlyGifts |-> X02_ModuleOnlyGifts(st, gh),
-   X02_DonateFrame |-> X02_DonateFrame(pre, ev, st)]
+   X02_DonateFrame |-> X02_DonateFrame(pre, ev, st),
+   X02_OneSidedReserve |-> X02_OneSidedReserve(pre, ev)]
 
 Failing == IF ev.name = "Init"
            THEN (IF C02_Conservation(st) THEN {} ELSE {"C02_Conservation"})
@@ -83,14 +84,26 @@ Monitor == Failing = {} \/ PrintT(<<"CLAUSE-FAIL", l - 1, Failing, Apply(pre, ev
 
 (* antecedent counters (vacuity) *)
 IsSwap(h, buy) == SwapOK(pre, ev) /\ ev.hops = h /\ ev.isBuy = buy
+WhoHolds(d, a) == ev.who \in DOMAIN pre.bal /\ d \in DOMAIN pre.bal[ev.who] /\ pre.bal[ev.who][d] >= a
+(* a one-sided message on an existing pool naming a coin that is neither reserve, of which the escrow holds some *)
+WkHeld ==
+  /\ WellFormed(pre) /\ ev.denom \in DOMAIN pre.pools /\ ev.tok \notin {pre.std, ev.denom}
+  /\ ev.tok \in DOMAIN pre.bal[pre.pools[ev.denom].esc]
+  /\ pre.bal[pre.pools[ev.denom].esc][ev.tok] > 0
 Exercised ==
   IF ev.name = "Init" THEN {} ELSE
+  LET why == Apply(pre, ev).why IN
   {c \in {"sell_1", "buy_1", "sell_2", "buy_2", "swap_third", "swap_third_2",
           "add_create", "add_funded", "add_refund_empty", "remove_ok", "remove_all",
           "adduni_ok", "remuni_ok", "donate_ok", "reject", "panic", "deadline_edge",
           "deadline_rej", "bound_edge", "bound_rej", "blocked_rej", "mint_zero",
           "wedged", "wedged_add_rej", "wedged_adduni", "sandwich", "round_trip", "route_skewed",
-          "to_module", "donate_blocked_rej", "donate_module"} :
+          "to_module", "donate_blocked_rej", "donate_module",
+          \* negative probing: identifiers of the wrong kind, odd roles, odd life-cycle states
+          "donate_foreign", "donate_share", "donate_odd", "pool_on_odd",
+          "wk_adduni_held", "wk_remuni_held", "wk_remove_shaped", "wk_remove_nopool", "wk_add_std",
+          "wk_counterparty", "wk_swap_lpt", "wk_swap_nopool", "wk_swap_equal", "wk_swap_held", "wk_untracked",
+          "role_no_share", "remuni_all_rej", "emptied_probe", "foreign_in_escrow"} :
      CASE c = "sell_1" -> IsSwap(1, FALSE)
        [] c = "buy_1" -> IsSwap(1, TRUE)
        [] c = "sell_2" -> IsSwap(2, FALSE)
@@ -98,18 +111,18 @@ Exercised ==
        [] c = "swap_third" -> SwapOK(pre, ev) /\ ev.to # ev.who
        [] c = "swap_third_2" -> SwapOK(pre, ev) /\ ev.to # ev.who /\ ev.hops = 2
        [] c = "add_create" -> ev.name = "AddLiquidity" /\ ev.ok /\ Created(pre, st) # {}
-       [] c = "add_funded" -> ev.name = "AddLiquidity" /\ ev.ok /\ Apply(pre, ev).why = ""
-       [] c = "add_refund_empty" -> ev.name = "AddLiquidity" /\ ev.ok /\ Apply(pre, ev).why = "refund_empty"
+       [] c = "add_funded" -> ev.name = "AddLiquidity" /\ ev.ok /\ why = ""
+       [] c = "add_refund_empty" -> ev.name = "AddLiquidity" /\ ev.ok /\ why = "refund_empty"
        [] c = "remove_ok" -> ev.name = "RemoveLiquidity" /\ ev.ok
-       [] c = "remove_all" -> ev.name = "RemoveLiquidity" /\ ev.ok /\ Apply(pre, ev).why = "emptied"
+       [] c = "remove_all" -> ev.name = "RemoveLiquidity" /\ ev.ok /\ why = "emptied"
        [] c = "adduni_ok" -> ev.name = "AddUnilateral" /\ ev.ok
        [] c = "remuni_ok" -> ev.name = "RemoveUnilateral" /\ ev.ok
        [] c = "donate_ok" -> ev.name = "Donate" /\ ev.ok
        [] c = "reject" -> ~ev.ok /\ ev.name # "Config"
        [] c = "panic" -> ev.panic
        [] c = "deadline_edge" -> ev.name \in CsMsgs /\ ev.ok /\ ev.deadline = pre.now
-       [] c = "deadline_rej" -> ev.name \in CsMsgs /\ ~ev.ok /\ Apply(pre, ev).why = "deadline"
-       [] c = "bound_rej" -> ev.name = "Swap" /\ ~ev.ok /\ Apply(pre, ev).why = "bound"
+       [] c = "deadline_rej" -> ev.name \in CsMsgs /\ ~ev.ok /\ why = "deadline"
+       [] c = "bound_rej" -> ev.name = "Swap" /\ ~ev.ok /\ why = "bound"
        [] c = "bound_edge" -> SwapOK(pre, ev) /\ SwapKnown(pre, ev)
                               /\ (IF ev.isBuy THEN SwapPaid(pre, ev, st) = ev.amt
                                               ELSE SwapRecv(pre, ev, st) = ev.amt2)
@@ -128,7 +141,51 @@ Exercised ==
        [] c = "to_module" -> ev.name = "Swap" /\ ev.to = MOD   \* accepted or rejected, as the wiring says
        [] c = "donate_blocked_rej" -> ev.name = "Donate" /\ ~ev.ok /\ ev.to \in BlockedOf(pre)
        [] c = "donate_module" -> ev.name = "Donate" /\ ev.ok /\ ev.to = MOD
-       [] c = "mint_zero" -> ev.name \in {"AddLiquidity", "AddUnilateral"} /\ ev.ok /\ ev.minted = 0}
+       [] c = "mint_zero" -> ev.name \in {"AddLiquidity", "AddUnilateral"} /\ ev.ok /\ ev.minted = 0
+       \* a plain bank send to the escrow of an existing pool of a coin that is neither of its reserves
+       [] c = "donate_foreign" -> ev.name = "Donate" /\ ev.ok /\ \E q \in DOMAIN pre.pools :
+                                    pre.pools[q].esc = ev.to /\ ev.denom \notin {pre.std, q}
+       [] c = "donate_share" -> ev.name = "Donate" /\ ev.ok /\ IsLpt(ev.denom) /\ ev.to \notin {MOD, FEEP}
+       [] c = "donate_odd" -> ev.name = "Donate" /\ ev.ok /\ ShareShaped(ev.denom) /\ ev.to \notin {MOD, FEEP}
+       [] c = "pool_on_odd" -> ev.name = "AddLiquidity" /\ ev.ok /\ ShareShaped(ev.denom)
+       \* one-sided message naming a coin that is neither reserve while the escrow HOLDS some of it
+       [] c = "wk_adduni_held" -> ev.name = "AddUnilateral" /\ ~ev.ok /\ WkHeld
+       [] c = "wk_remuni_held" -> ev.name = "RemoveUnilateral" /\ ~ev.ok /\ WkHeld
+       \* withdrawal naming an ordinary coin shaped like a liquidity denom, which the sender holds,
+       \* while the pool with that sequence number exists
+       [] c = "wk_remove_shaped" -> ev.name = "RemoveLiquidity" /\ ~ev.ok /\ ShareShaped(ev.denom)
+                                     /\ WhoHolds(ev.denom, ev.amt) /\ pre.seq > 1 /\ why = "no_pool"
+       [] c = "wk_remove_nopool" -> ev.name = "RemoveLiquidity" /\ ~ev.ok /\ why = "no_pool"
+       [] c = "wk_add_std" -> ev.name = "AddLiquidity" /\ ~ev.ok /\ why = "std_denom"
+       \* the counterparty field names the standard coin or a liquidity denom
+       [] c = "wk_counterparty" -> ev.name \in {"AddUnilateral", "RemoveUnilateral"} /\ ~ev.ok
+                                    /\ (ev.denom = pre.std \/ IsLpt(ev.denom)) /\ why = "no_pool"
+       [] c = "wk_swap_lpt" -> ev.name = "Swap" /\ ~ev.ok /\ (IsLpt(ev.inDenom) \/ IsLpt(ev.outDenom))
+       [] c = "wk_swap_equal" -> ev.name = "Swap" /\ ~ev.ok /\ ev.inDenom = ev.outDenom
+       [] c = "wk_swap_nopool" -> ev.name = "Swap" /\ ~ev.ok /\ why = "pool"
+       \* an order to buy a coin out of a pool that holds it without trading it (foreign donation)
+       [] c = "wk_swap_held" -> ev.name = "Swap" /\ ~ev.ok /\ why = "pool"
+                                 /\ \E q \in DOMAIN pre.pools :
+                                      /\ ev.outDenom \notin {pre.std, q}
+                                      /\ pre.pools[q].esc \in DOMAIN pre.bal
+                                      /\ ev.outDenom \in DOMAIN pre.bal[pre.pools[q].esc]
+                                      /\ pre.bal[pre.pools[q].esc][ev.outDenom] > 0
+       [] c = "wk_untracked" -> ~ev.ok /\ why = "untracked"
+       \* a removal by somebody who owns no share of the pool
+       [] c = "role_no_share" -> ev.name \in {"RemoveLiquidity", "RemoveUnilateral"} /\ ~ev.ok
+                                  /\ why = "funds"
+       [] c = "remuni_all_rej" -> ev.name = "RemoveUnilateral" /\ ~ev.ok /\ why = "all_liquidity"
+       \* a message turned away by a pool without shares (emptied or wedged)
+       [] c = "emptied_probe" -> ev.name \in CsMsgs /\ ~ev.ok /\ WellFormed(pre)
+                                  /\ \E q \in DOMAIN pre.pools : PoolL(pre, q) = 0
+                                       /\ q \in {ev.denom, ev.inDenom, ev.outDenom}
+       \* a pool works (successful message on it) while its escrow holds a foreign coin
+       [] c = "foreign_in_escrow" -> ev.name \in CsMsgs /\ ev.ok /\ WellFormed(pre)
+                                      /\ \E q \in DOMAIN pre.pools :
+                                           /\ q \in {ev.denom, ev.inDenom, ev.outDenom}
+                                           /\ \E d \in DOMAIN pre.bal[pre.pools[q].esc] :
+                                                d \notin {pre.std, q} /\ pre.bal[pre.pools[q].esc][d] > 0}
+  \cup (IF ev.ok \/ ev.name \notin CsMsgs \cup {"Donate"} THEN {} ELSE {"rej_" \o why})
 Coverage == Exercised = {} \/ PrintT(<<"EXERCISED", Exercised>>)
 
 Report == (l = Len(Trace) + 1) => PrintT(<<"TRACE-END", Len(Trace), drift, driftAt>>)
